@@ -32,13 +32,17 @@ CHECK_DEADLOCK FALSE
 """
 
 INV = {
+    # the class of the named deviation C25evict1 (Act_C25_SenderLimits_OneEvictionPerAdd) is validated in a pass of its
+    # own ("C25known"): TLC stops at the first violated predicate, and a known finding early in a trace must not hide
+    # a different violation later in it
     "C25": ["Inv_C25_HashIndex", "Inv_C25_HashIndex_AfterStaleSweep", "Inv_C25_Counts", "Inv_C25_Order",
-            "Inv_C25_SenderLimits"],
+            "Act_C25_SenderLimits"],
+    "C25known": ["Act_C25_SenderLimits_OneEvictionPerAdd"],
     "C26": ["Inv_C26_AtMostN", "Inv_C26_DistinctPooled", "Inv_C26_Prefix", "Inv_C26_NoSkip",
             "Inv_C26_NoSkip_AfterNonce0", "Inv_C26_GapSender"],
 }
 STATE_INV = "INVARIANTS TypeOK Inv_C25_HashIndex Inv_C25_HashIndex_AfterStaleSweep Inv_C25_Counts Inv_C25_Order"
-ACT_C25 = "Act_C25_SenderLimits"
+ACT_C25 = "Act_C25_SenderLimits Act_C25_SenderLimits_OneEvictionPerAdd"
 ACT_C26 = ("Act_C26_AtMostN Act_C26_DistinctPooled Act_C26_Prefix Act_C26_NoSkip Act_C26_NoSkip_AfterNonce0 "
            "Act_C26_GapSender")
 
@@ -51,16 +55,24 @@ SELECT = dict(STRUCT, nonces="0, 1, 3", prices="1", sizes="1", configs="CfgC26",
               maxfailed=3, maxsweep=1, rest="VIEW cvars\n" + STATE_INV + "\nPROPERTIES " + ACT_C25 + " " + ACT_C26)
 
 
-def trace_cfgs(sd, prop):
+def trace_cfgs(sd, prop, which=None):
     """per-property trace configurations: only the invariants of the property being decided are listed, so that a
     violation of the sibling property never stops the validation of this one"""
-    for name, spec in (("trace_%s.cfg" % prop, "TraceSpec"), ("obs_%s.cfg" % prop, "ObsSpec")):
+    which = which or prop
+    names = INV[which]
+    inv = [n for n in names if n.startswith("Inv_")]
+    act = [n for n in names if n.startswith("Act_")]
+    for name, spec in (("trace_%s.cfg" % which, "TraceSpec"), ("obs_%s.cfg" % which, "ObsSpec")):
         s = open(os.path.join(sd, "Trace_TxCache.cfg")).read()
         head, _, tail = s.partition("INVARIANTS")
         tail = tail[tail.index("POSTCONDITION"):]
-        s = head.replace("SPECIFICATION TraceSpec", "SPECIFICATION " + spec) + "INVARIANTS\n  " + " ".join(INV[prop]) + "\n" + tail
-        open(os.path.join(sd, name), "w").write(s)
-    return "trace_%s.cfg" % prop, "obs_%s.cfg" % prop
+        s = head.replace("SPECIFICATION TraceSpec", "SPECIFICATION " + spec)
+        if inv:
+            s += "INVARIANTS\n  " + " ".join(inv) + "\n"
+        if act:
+            s += "PROPERTIES\n  " + " ".join(act) + "\n"
+        open(os.path.join(sd, name), "w").write(s + tail)
+    return "trace_%s.cfg" % which, "obs_%s.cfg" % which
 
 
 def thin(path, k):
@@ -71,11 +83,11 @@ def thin(path, k):
                 f.write(l + "\n")
 
 
-def validate(ctx, sd, tr, nev, what, ntraces):
-    tc, oc = trace_cfgs(sd, ctx.prop)
+def validate(ctx, sd, tr, nev, what, ntraces, which=None):
+    tc, oc = trace_cfgs(sd, ctx.prop, which)
     st, line = vlib.validate_trace(ctx, sd, "Trace_TxCache", tc, tr, nev, ctx.prop, divergence_is_violation=False,
                                    what=what, obs_cfg=oc, timeout=1500)
-    if st == "accepted":
+    if st == "accepted" and which is None:
         ctx.cov(traces_validated_against_impl=ntraces, evaluations=nev)
     return st
 
@@ -93,6 +105,14 @@ def run(ctx):
     def cfg(name, d):
         open(os.path.join(sd, name), "w").write(CFG % d)
         return name
+    tlc0 = ctx.tlc
+
+    def tlc(sdir, mod, cfgname, **kw):
+        r = tlc0(sdir, mod, cfgname, **kw)
+        ctx.notes.append("tlc %s: %.0fs, %d generated, %d distinct%s" % (cfgname, r.wall, r.generated, r.distinct,
+                                                                         (", " + r.error) if r.error else ""))
+        return r
+    ctx.tlc = tlc
     ctx.assume("a transaction is [sender, nonce, gas price, size]; its hash is derived from these four values by the harness "
                "(distinct transactions have distinct hashes)",
                "sequential histories: one call at a time; SelectTransactions is the selection followed by the sweep that "
@@ -160,13 +180,13 @@ def run(ctx):
         lap("asynchronous sweep")
     # ------------------------------------------------------------------ R2: TLC-generated histories drive the real cache
     base = STRUCT if c25 else SELECT
-    gen = dict(base, spec="GenSpec", defects='"C25evict1", "C26nonce0", "ClearBytes"', log="LogAppend", depth=6 if q else 8,
+    gen = dict(base, spec="GenSpec", defects='"C25evict1", "C26nonce0", "ClearBytes"', log="LogAppend", depth=(5 if c25 else 6) if q else 8,
                clear="TRUE", rest="VIEW cvars\nACTION_CONSTRAINT EmitEdgeSampled")
     if c25:
         gen.update(configs="CfgC25Quick" if q else "CfgC25Thorough", ns="2", bs="1", notify="0",
-                   nonces="0, 1" if q else "0, 1, 2", samplek=400 if q else 300)
+                   nonces="0, 1" if q else "0, 1, 2", samplek=150 if q else 300)
     else:
-        gen.update(configs="CfgC26Evict", prices="1" if q else "1, 2", samplek=400 if q else 100)
+        gen.update(configs="CfgC26Evict", prices="1" if q else "1, 2", samplek=60 if q else 100)
     beh = ctx.path("edges.ndjson")
     g = ctx.tlc(sd, "MC_TxCache", cfg("gen.cfg", gen), timeout=1800, behaviours_out=beh, extra=["-seed", str(ctx.seed)])
     if g.ok and g.behaviours == 0:
@@ -183,8 +203,8 @@ def run(ctx):
                bs="0, 1, 2", notify="0, 1, 2", maxfailed=6, maxsweep=3,
                configs="CfgC25Thorough" if c25 else "CfgC26Evict")
     beh2 = ctx.path("sim.ndjson")
-    ctx.tlc(sd, "MC_TxCache", cfg("sim.cfg", sim), simulate=12 if q else 120, depth=30, timeout=900, behaviours_out=beh2)
-    thin(beh2, 40)   # TLC prints every last-step variant of a walk; keep one in 40
+    ctx.tlc(sd, "MC_TxCache", cfg("sim.cfg", sim), simulate=6 if q else 120, depth=30, timeout=900, behaviours_out=beh2)
+    thin(beh2, 25 if q else 40)   # TLC prints every last-step variant of a walk; keep one in 40
     h2 = ctx.vh(exe, ["replay", beh2, tr, "sync"], count_samples=False)
     st = validate(ctx, sd, tr, int(h2.stats.get("events", 0)), "simulated histories replayed on TxCache",
                   int(h2.stats.get("behaviours", 0)))
@@ -196,6 +216,10 @@ def run(ctx):
     st = validate(ctx, sd, tr, nev, "random TxCache history", nt)
     ctx.cov(distinct_nontrivial=int(r3.stats.get("distinct", 0)))
     lap("R3 (%d events, %s)" % (nev, st))
+    if c25:
+        # the named deviation's own class, in a pass of its own on the same recorded histories
+        st2 = validate(ctx, sd, tr, nev, "random TxCache history", nt, which="C25known")
+        lap("R3, class of C25evict1 (%s)" % st2)
     if not q and st == "accepted":
         tc, oc = trace_cfgs(sd, ctx.prop)
         if c25:
